@@ -11,6 +11,7 @@ import (
 	"encoding/json"
 	"fmt"
 	"sync"
+	"sync/atomic"
 	"time"
 
 	"github.com/lugu/qiloop/bus/net"
@@ -29,6 +30,7 @@ func cmdForward(args []string) {
 		hlib.Fatal("forward <tests.ndjson>")
 	}
 	res := &hlib.Result{}
+	hlib.Watchdog(res, &hangProgress, 90*time.Second, "forward/hang", nil)
 	n := 0
 	hlib.ReadLines(args[0], func(line []byte) {
 		var t fwTest
@@ -36,6 +38,7 @@ func cmdForward(args []string) {
 			hlib.Fatal("bad test: %v", err)
 		}
 		n++
+		atomic.AddInt64(&hangProgress, 1)
 		res.Evaluations++
 		forwardOne(res, n, &t)
 	})
